@@ -109,7 +109,13 @@ impl Source for FileSystem {
     }
 
     fn exists(&self, entry: DirEntry) -> bool {
-        self.path_of(entry).exists()
+        // A file without extension and a directory have the same path: the
+        // kind has to be checked too.
+        let path = self.path_of(entry);
+        match entry {
+            DirEntry::File(..) => path.is_file(),
+            DirEntry::Directory(_) => path.is_dir(),
+        }
     }
 
     fn make_source(&self) -> Option<Box<dyn Source + Send>> {
